@@ -8,8 +8,8 @@ from harness import parse_common as PC
 from harness.driver import Driver, DriverError
 
 PID = 'C01'
-THEOREMS = ['PyDBML.C02.parseDoc_table', 'PyDBML.C02.parseDoc_sticky', 'PyDBML.C02.build_table']
-MODULES = ['PyDBMLProofs.Props.C02Sticky', 'PyDBMLProofs.Props.C02Table']
+THEOREMS = ['PyDBML.C02.parseDoc_tables', 'PyDBML.C02.build_tables', 'PyDBML.C02.many_tables', 'PyDBML.C02.parseDoc_table', 'PyDBML.C02.parseDoc_sticky', 'PyDBML.C02.build_table']
+MODULES = ['PyDBMLProofs.Props.C02Sticky', 'PyDBMLProofs.Props.C02Table', 'PyDBMLProofs.Props.C02Tables']
 
 
 def mk_case(seed, varied=True, max_tables=4):
@@ -217,8 +217,8 @@ def main(tier, seed):
         explanation='Oracle (parser-independent): the parsed content equals the content the speller was given — nothing dropped, '
                     'nothing invented, source order kept; spelling independence across reference forms. Correspondence: the Lean '
                     'character-level model of the whole grammar + build (lean/PyDBMLModel/{Lex,Grammar,Build}.lean) returns the same '
-                    'content or error class on the corpus and on every spelled document. Theorems parseDoc_table / build_table (the renderer\'s spelling of a table with any number of plain columns is parsed and '
-                    'built to exactly those declarations, in order) and parseDoc_sticky are the parse-of-spelling theorems; they are partial '
+                    'content or error class on the corpus and on every spelled document. Theorems parseDoc_tables / build_tables (the renderer\'s spelling of any number of tables with any number of plain columns is '
+                    'parsed and built to exactly those declarations, each once, in source order) and parseDoc_sticky are the parse-of-spelling theorems; they are partial '
                     '(two element kinds, one spelling each).',
         assumptions=['the speller only produces documents inside WF (DESIGN 5.1); named departures are the wild cases'],
         trusted_base=['hand-written Lean model of pyparsing primitives and the grammar, tied by this correspondence',
